@@ -13,7 +13,7 @@ RULE = ("case = (generated legal design, one injected structural defect or none,
         "field), block driving a net-driven signal, net without driver, connection loop of 3-4 signals, port-direction "
         "rules (read/write of a child's wire, write to own input port, write to a child's output port, child output "
         "connected to own input port, in/out loopback inside the component, connection across two hierarchy levels), "
-        "wrong assignment operator (= or <<= in @update, = or @= in @update_ff, <<= on a slice or field, also as the second assignment of a block), two drivers two or more levels apart on one path of a three-level struct (with the disjoint legal counterpart), a constant tied from a forbidden position (own InPort of a non-top component, a child's OutPort / Wire, a grandchild's InPort; with the legal counterpart); first drivers may sit inside nested @s.func helpers. Oracle: a "
+        "wrong assignment operator (= or <<= in @update, = or @= in @update_ff, <<= on a slice or field, also as the second assignment of a block, or right after a correct assignment inside one if / else / for body), two drivers two or more levels apart on one path of a three-level struct (with the disjoint legal counterpart), a constant tied from a forbidden position (own InPort of a non-top component, a child's OutPort / Wire, a grandchild's InPort; with the legal counterpart); first drivers may sit inside nested @s.func helpers. Oracle: a "
         "bit-level driver-set model over the IR confirms the legal design has one driver per driven bit and that a "
         "driver-conflict mutant has two; elaborate() must return for the legal design and raise an exception of the "
         "class(es) corresponding to the defect for every order. non-trivial = conflict between different Python signal "
